@@ -10,10 +10,15 @@ use std::borrow::Borrow;
 use std::collections::HashSet;
 use std::hash::Hash;
 use std::mem;
+#[cfg(not(excsn_fibre_verif))]
 use std::sync::{
   atomic::{AtomicBool, Ordering},
   Arc, Weak,
 };
+#[cfg(excsn_fibre_verif)]
+use std::sync::{Arc, Weak};
+#[cfg(excsn_fibre_verif)]
+use crate::internal::sync::{AtomicBool, Ordering};
 use std::time::Duration;
 
 use papaya::Equivalent;
